@@ -475,13 +475,27 @@ class Ser:
                     first = False
                     cur = w
                 else:
-                    cur += (" " if (not self.wild or L.random() < 0.9) else L.choice(["  ", "   ", " \t"])) + w
+                    cur += (" " if (not self.wild or L.random() < 0.9) else L.choice(["  ", "   ", " \t"])) + self.inner(w)
             if si < len(segs) - 1:
                 cur += b["hb"][si] if b["hb"][si] == "\\" else "  "
             # the line after a hard break is not a free continuation line (keep it simple)
             lines.append((cur, "x" if first else ("pc" if si == 0 or True else "x")))
             first = False
         return lines
+
+    def inner(self, w: str) -> str:
+        """Layout freedom inside an atomic word: runs of spaces in code spans, link texts and template tags."""
+        L = self.L
+        if not self.wild or " " not in w or L.random() > 0.3:
+            return w
+        if w.startswith("`") and w.endswith("`") and not w.startswith("``"):
+            return w.replace(" ", "  ", 1)
+        if w.startswith("[") and "](" in w:
+            text, rest = w.split("](", 1)
+            return text.replace(" ", "   ", 1) + "](" + rest if "`" not in text else w
+        if w.startswith(("{%", "{{", "{#")) and '"' not in w and "'" not in w:
+            return w.replace(" ", "  ", 1)
+        return w
 
     def blocks(self, blocks: list[dict], tight: bool = False) -> list[tuple[str, str]]:
         out: list[tuple[str, str]] = []
